@@ -151,18 +151,36 @@ fn prepare(c: &GoodCase) -> Prepared {
     }
 }
 
+/// The three spellings clap accepts for a short option with a value: `-a 3`, `-a3`, `-a=3`.
+fn push_opt(a: &mut Vec<String>, short: &str, value: String, style: u16) {
+    match style % 3 {
+        1 => a.push(format!("{}{}", short, value)),
+        2 => a.push(format!("{}={}", short, value)),
+        _ => {
+            a.push(short.into());
+            a.push(value);
+        }
+    }
+}
+
 fn base_args(c: &GoodCase, file: &str, arg_label: Option<String>, fake: &FakeSat) -> Vec<String> {
+    base_args_spelt(c, file, arg_label, fake, false)
+}
+
+/// `vary`: the options -f, -p and -a are spelt in one of clap's three ways each (good cases only; the bad
+/// cases patch the argument vector by position and keep the separate form).
+fn base_args_spelt(c: &GoodCase, file: &str, arg_label: Option<String>, fake: &FakeSat, vary: bool) -> Vec<String> {
     let mut a: Vec<String> = vec![];
     if c.tool == 0 {
         a.push("solve".into());
     }
-    a.push("-f".into());
-    a.push(file.into());
-    a.push("-p".into());
-    a.push(problem_string(c.q, c.sem, c.case_mask));
+    let st = if vary { c.case_mask / 16 } else { 0 };
+    // a third of the varied cases keep every option in the usual form
+    let (sf, sp_, sa) = if st % 3 == 0 { (0, 0, 0) } else { (st / 3, st / 9, st / 27) };
+    push_opt(&mut a, "-f", file.into(), sf);
+    push_opt(&mut a, "-p", problem_string(c.q, c.sem, c.case_mask), sp_);
     if let Some(l) = arg_label {
-        a.push("-a".into());
-        a.push(l);
+        push_opt(&mut a, "-a", l, sa);
     }
     if c.tool == 0 {
         if c.apx {
@@ -327,7 +345,10 @@ impl Cli {
                 }
             }
         }
-        let mut args = base_args(c, &file_arg, arg_label, &fake);
+        let mut args = base_args_spelt(c, &file_arg, arg_label, &fake, true);
+        if args.iter().any(|x| x.starts_with("-a") && x.len() > 2 || x.starts_with("-p") && x.len() > 2 || x.starts_with("-f") && x.len() > 2) {
+            rec.class("option-value-attached-or-with-equals-sign");
+        }
         let bin = if c.tool == 0 { &solve_bin } else { &iccma_bin };
         // one external-solver case in three names the solver by its bare name (found through PATH) and runs
         // from a working directory that happens to contain an entry of that name (a checkout, a log directory)
